@@ -279,9 +279,11 @@ pub fn gradient_src(ctx: &Ctx, ext: f32) -> BoxedStrategy<SrcSpec> {
             };
             SrcSpec::TwoCircle { stops, spread, x1, y1, r1, x2, y2, r2 }
         }),
-        (stops(ctx), 0u8..3, c(), c(), 0.0f32..300.0, 10.0f32..360.0).prop_map(move |(stops, spread, cx, cy, a0, da)| {
+        // (the span may exceed one turn: the angle of a pixel stays in [0,360), so only the first part of the stops
+        // is then reached)
+        (stops(ctx), 0u8..3, c(), c(), 0.0f32..300.0, prop_oneof![6 => 10.0f32..360.0, 1 => Just(360.0f32), 2 => 360.0f32..1080.0]).prop_map(move |(stops, spread, cx, cy, a0, da)| {
             let a0 = if sweep_free { a0 } else { 0.0 };
-            SrcSpec::Sweep { stops, spread, cx, cy, a0, a1: (a0 + da).min(a0 + 360.0) }
+            SrcSpec::Sweep { stops, spread, cx, cy, a0, a1: a0 + da }
         }),
     ]
     .boxed()
